@@ -226,6 +226,8 @@ type mxScript struct {
 	reqs       int
 	others     int
 	stagger    int64
+	purges     int   // mode start: clean-ups of the lock table requested while the requests run
+	purgeGap   int64 // ns between them
 	create     bool // concurrent requests call Start with createIfNew = true
 	storeDelay int64
 	hasStoreD  bool
@@ -304,6 +306,8 @@ func runMx(script, outPath string) {
 			sc.others = int(atoi64(tok[1]))
 		case "create":
 			sc.create = tok[1] == "1"
+		case "purges":
+			sc.purges, sc.purgeGap = int(atoi64(tok[1])), atoi64(tok[2])
 		case "stagger":
 			need(1)
 			sc.stagger = atoi64(tok[1])
@@ -652,6 +656,15 @@ func (r *mxRun) runStart(sc *mxScript) {
 			r.done[rq] = true
 			r.mu.Unlock()
 		}(i, id)
+	}
+	if sc.purges > 0 {
+		// clean-ups of the lock table while requests are inside Start (what the periodic goroutine does every ten minutes)
+		go func() {
+			for i := 0; i < sc.purges; i++ {
+				time.Sleep(time.Duration(sc.purgeGap))
+				sessions.VerifSessionIDMutexes().Purge()
+			}
+		}()
 	}
 	wd := r.wait(&wg, t0+sc.watchdog)
 	size := -1
